@@ -112,7 +112,8 @@ UnderAny(a, rs) == \E p \in rs : IsPrefixP(p, a)
 \* C01/C02/C22: a trace is exactly the execution its choices and arguments describe
 LawVisited(p, T) == LET r == ExecT(p, T) IN r.err = "none" /\ DOMAIN r.lps = DOMAIN T.choices
 LawScore(p, T)   == Close(Score(ExecT(p, T)), T.score)
-LawRet(p, T)     == ExecT(p, T).ret = T.ret
+\* (masked_iterate documents nothing about the values it returns at False steps: only its score is specified)
+LawRet(p, T)     == p.k = "maskediterate" \/ ExecT(p, T).ret = T.ret
 
 \* C03: importance
 LawGenAgree(T, cons)     == \A a \in DOMAIN cons \cap DOMAIN T.choices : T.choices[a] = cons[a]
